@@ -501,6 +501,80 @@ fn suffix_history_case(cx: &mut Cx, case: u64, r: &mut Rng) {
     }
 }
 
+/// The safe mark belongs to a value, not to its text: the same text routed twice in a row through the same sink — a
+/// component argument, a component body, a registered function or filter argument, `default`, a map entry, an assignment
+/// — once marked safe and once not, in both orders, is written raw where it was marked and through the escaper where it
+/// was not. The halves are separated by template text; the marking escaper says which is which.
+fn twin_sink_case(cx: &mut Cx, case: u64, r: &mut Rng) {
+    cx.begin_case(case, "twin-sinks");
+    const SINKS: &[(&str, &str)] = &[
+        ("component-arg", "{{ <tw a={@} /> }}"),
+        ("component-arg-in-body-call", "{% <tw a={@}> %}x{% </tw> %}"),
+        ("component-body", "{% <twb> %}{{ @ }}{% </twb> %}"),
+        // what a function or filter returns is a new value: only the unmarked occurrences are asserted for these two
+        ("function-result", "{{ ident(v=@) }}"),
+        ("filter-result", "{{ nope | default(value=@) }}"),
+        ("map-entry", "{% set m = {\"k\": @} %}{{ m.k }}"),
+        ("array-entry", "{{ [@][0] }}"),
+        ("assignment", "{% set w = @ %}{{ w }}"),
+        ("ternary", "{{ @ if true else 0 }}"),
+        ("print", "{{ @ }}"),
+    ];
+    let (sname, sink) = *r.pick(SINKS);
+    let src = *r.pick(&["v", "v2", "\"αβ<'\"", "m0.k"]);
+    let n = 2 + r.below(3);
+    let flags: Vec<bool> = (0..n).map(|_| r.bool()).collect();
+    let in_loop = r.chance(1, 3);
+    let body: String = if in_loop && !sink.contains("{% set") {
+        // the same call site visited with a safe and an unsafe element in turn
+        let elems: Vec<String> = flags.iter().map(|f| if *f { format!("{src} | safe") } else { src.to_string() }).collect();
+        format!("{{% for e in [{}] %}}{}z{{% endfor %}}", elems.join(", "), sink.replace('@', "e"))
+    } else {
+        flags.iter().map(|f| format!("{}z", sink.replace('@', &if *f { format!("{src} | safe") } else { src.to_string() }))).collect()
+    };
+    let tpls = vec![("c.html".to_string(), "{% component tw(a) %}{{ a }}{% endcomponent %}{% component twb() %}{{ body }}{% endcomponent %}".to_string()), ("t.html".to_string(), body)];
+    let replay = json!({"templates": tpls, "safe_flags": flags, "sink": sname});
+    let Ok(Ok(mut t)) = guard(|| engine(None, false, &tpls)) else {
+        cx.violation("C01/valid-route-rejected/twin-sinks", "registration failed".to_string(), replay);
+        return;
+    };
+    t.set_escape_fn(mark);
+    let mut ctx = Context::new();
+    ctx.insert("v", "αβ<'");
+    ctx.insert("v2", "αβ<'");
+    let mut m = Map::new();
+    m.insert("k".into(), Value::from("αβ<'"));
+    ctx.insert_value("m0", Value::from(m));
+    cx.eval();
+    match guard(|| t.render("t.html", &ctx)) {
+        Ok(Ok(o)) => {
+            let parts: Vec<&str> = o.split('z').collect();
+            cx.count("twin_sink_halves_classified", flags.len() as u64);
+            cx.cell(format!("twin-sinks|{sname}|{src}|{}|{}", if in_loop { "loop" } else { "inline" }, flags.iter().map(|f| if *f { 's' } else { 'u' }).collect::<String>()));
+            if parts.len() != flags.len() + 1 {
+                cx.violation("C01/data-lost/twin-sinks", format!("expected {} parts, marked output {o:?}", flags.len()), replay);
+                return;
+            }
+            for (i, f) in flags.iter().enumerate() {
+                let ds = depths(parts[i]);
+                let want = if *f { 0 } else { 1 };
+                if *f && sname.ends_with("-result") {
+                    continue;
+                }
+                if ds.len() != 4 || ds.iter().any(|(_, d)| *d != want) {
+                    cx.violation(
+                        &format!("C01/{}/twin-{sname}", if *f { "safe-value-escaped" } else { "unescaped-data" }),
+                        format!("occurrence {i} ({}) of the same text through {sname}: marked output {o:?}", if *f { "marked safe" } else { "not marked safe" }),
+                        replay,
+                    );
+                    return;
+                }
+            }
+        }
+        other => cx.violation("C01/valid-route-fails/twin-sinks", format!("render failed: {:?}", other.map(|x| x.map_err(|e| e.to_string()))), replay),
+    }
+}
+
 pub fn run(cx: &mut Cx) {
     let total = cx.total(40_000, 3_000_000);
     let vars = base_context();
@@ -541,6 +615,10 @@ pub fn run(cx: &mut Cx) {
         }
         if case % 16 == 5 {
             suffix_history_case(cx, case, &mut r);
+            continue;
+        }
+        if case % 16 == 13 {
+            twin_sink_case(cx, case, &mut r);
             continue;
         }
         cx.begin_case(case, "routes");
